@@ -20,4 +20,17 @@ CLAIMED = {
     ),
 }
 
+CLAIMED['C07'] = dict(
+    text='Theorems (Props/C07.lean) over the Env model for every state and operation sequence: pause withholds exactly '
+         'the asset\'s pending events and keeps the order of the others; unpause re-inserts exactly those events, shifted, '
+         'into a sorted queue; with exact time arithmetic the shift is + (now - pausedAt) so the remaining delay is '
+         'preserved (pause invariant proved for every reachable state); cancel flags exactly the asset\'s pending and paused '
+         'events, the flag is never cleared and a cancelled event is never reported as run; events scheduled afterwards are '
+         'unaffected; redundant pause/resume are identities. Tie: family env (pauses at non-zero times, nested pauses, '
+         'cancel-then-unpause) compared event by event with the real Environment; per-event tracking monitor on '
+         'implementation traces incl. a decimal-time stream.',
+    note=BASE_NOTE + ' Remaining-delay theorems assume exact time arithmetic (Arith.exact); float rounding is covered only by the monitor (one-ulp tolerance).',
+    technique='Lean 4 theorems over the event-queue model + differential correspondence',
+)
+
 NOT_CLAIMED = {}
